@@ -61,7 +61,8 @@ def phase1_paths(rep, facts, paths, cf, elem, prop, what, with_conflict, is_clos
         callsx = [e for e in p.effects if e[0] == "call"]
         entry = [c for c in callsx if c[1].endswith("::entry")]
         vins = [c for c in callsx if "VacantEntry" in c[1] and c[1].endswith("::insert")]
-        ctor = [c for c in callsx if ("HashMap" in c[1] and (c[1].endswith(">::new") or c[1].endswith(">::with_capacity"))) or c[1].endswith("<impl [T]>::len") or c[1].endswith("Vec::<T, A>::len")]
+        ctor = [c for c in callsx if ("HashMap" in c[1] and (c[1].endswith(">::new") or c[1].endswith(">::with_capacity"))) or c[1].endswith("<impl [T]>::len") or c[1].endswith("Vec::<T, A>::len")
+                or ("OccupiedEntry" in c[1] and c[1].rsplit("::", 1)[1] in ("key", "get"))]   # read-only getters of the entry
         other = [c for c in callsx if c not in entry + vins + ctor] + [e for e in p.effects if e[0] not in ("call", "push", "iterate", "iterate_end", "next", "next_end")]
         if is_closure:
             ret_ok = p.exit == "return" and base_label(lab(p.ret)) == "map"
